@@ -68,7 +68,7 @@ func verifCheckDigest(where string, round string, row int) {
 func verifStep(p *parser.Parser, round string, isLoad bool, eof bool) {
 	if verifTraceOn {
 		verifEvents = append(verifEvents, map[string]any{
-			"ev": "step", "round": round, "file": p.FileName, "load": isLoad, "row": p.Row, "eof": eof,
+			"ev": "step", "round": round, "file": p.FileName, "load": isLoad, "row": p.Row, "eof": eof, "pp": fmt.Sprintf("%p", p),
 			"eofReads": reader.VerifEOFReads,
 		})
 	}
@@ -296,8 +296,8 @@ func verifRunJob(job *verifJob, snap **base.VerifSnapshot, curKey *string, realO
 	sink := func(ev map[string]any) { verifEmit(ev) }
 	if job.Trace {
 		method_evaluator.VerifSink = sink
-		parser.VerifOnFatal = func(file string, row int, round string, msg string) {
-			verifEmit(map[string]any{"ev": "err", "file": file, "row": row, "round": round, "msg": msg})
+		parser.VerifOnFatal = func(file string, row int, round string, msg string, parserID string) {
+			verifEmit(map[string]any{"ev": "err", "file": file, "row": row, "round": round, "msg": msg, "pp": parserID})
 		}
 	} else {
 		method_evaluator.VerifSink = nil
